@@ -62,6 +62,16 @@ Definition dec_ok {T} (c : codec T) (o : oracles) (t : tree) (obs : res T) : boo
 Definition wire_ok (t obs : tree) : bool :=
   negb (tree_in_model t) || tree_eqb (wire1 t) obs.
 
+(* the zone offset text: [txt] is what package time writes for the offset with
+   the layout "Z07:00", [back] the offset package time reads from it again *)
+Definition tzo_ok (off : Z) (txt : bytes) (back : option Z) : bool :=
+  bytes_eqb (format_tzo off) txt &&
+  match back, parse_tzo txt with
+  | Some b, Some p => Z.eqb p b
+  | None, _ => true
+  | Some _, None => false
+  end.
+
 (* ---- data forms ---- *)
 
 Inductive fctor := CNew (opts : list formopt) | CCancel (t i : bytes) | CZero.
